@@ -110,7 +110,11 @@ def check_compress(case, rec):
     D_old = psi.bond_dims
     # the tolerance in its legal numeric forms (float, int 0, numpy scalar)
     tform = (0 if case['obj']['seed'] % 2 else 0.0) if tol == 0 else (np.float64(tol) if case['obj']['seed'] % 2 else tol)
-    ret = psi.compress(tform, mode=mode)
+    if mode == 'left' and (case['obj']['seed'] // 2) % 2:
+        ret = psi.compress(tform)               # 'left' is the documented default of `mode`
+        rec.label('default_mode_argument')
+    else:
+        ret = psi.compress(tform, mode=mode)
     require(isinstance(ret, tuple) and len(ret) == 2, 'compress must return (norm, scale)')
     nrm, scale = float(np.real(ret[0])), float(np.real(ret[1]))
     require(np.isfinite(nrm) and np.isfinite(scale), 'non-finite return values', nrm=nrm, scale=scale)
@@ -222,7 +226,11 @@ def check_degenerate(case, rec):
     n0 = np.linalg.norm(v0)
     D_old = psi.bond_dims
     mode = case['mode']
-    nrm, scale = psi.compress(tol, mode=mode)
+    if mode == 'left' and case.get('seed', 0) % 2:
+        nrm, scale = psi.compress(tol)          # 'left' is the documented default
+        rec.label('default_mode_argument')
+    else:
+        nrm, scale = psi.compress(tol, mode=mode)
     nrm = float(np.real(nrm)); scale = float(np.real(scale))
     require(abs(nrm - n0) <= 1e-11 * n0, 'returned norm differs from the norm of the original state', nrm=nrm, norm=n0)
     require(scale <= 1 + 1e-12 and scale >= np.sqrt(max(0.0, 1 - L * tol)) - 1e-12, 'scale factor outside [sqrt(1 - L tol), 1]',
